@@ -106,6 +106,18 @@ else:
         except (IOError, OSError) as err:
             raise LockError("Couldn't lock {0}, error: {1}".format(file.name, err))
 
+        # Lock files can be released by removing them. The file we opened might
+        # have been removed (and re-created by another process) before we locked
+        # it. A lock on such an orphaned file does not exclude anyone, so make
+        # sure that the path still refers to the file we hold the lock on.
+        try:
+            path_stat = os.stat(file.name)
+        except OSError as err:
+            raise LockError("Lock file {0} was removed, error: {1}".format(file.name, err))
+        file_stat = os.fstat(file.fileno())
+        if (path_stat.st_dev, path_stat.st_ino) != (file_stat.st_dev, file_stat.st_ino):
+            raise LockError("Lock file {0} was replaced".format(file.name))
+
     def _unlock_file(file):
         # File is automatically unlocked on close
         pass
